@@ -121,6 +121,15 @@ func c07Scenarios(thorough bool) []c07Scenario {
 				{"W", "INSERT INTO w VALUES ('z', 26)", "RESERVED"},
 				{"W", "COMMIT", "committed"},
 			}},
+			c07Scenario{"schema-changes-committed/" + m, pr, []c07Step{
+				{"W", "BEGIN", ""},
+				{"W", "CREATE TABLE fresh_table (a, b); INSERT INTO fresh_table VALUES (1, 'x'); CREATE TABLE w_new (k TEXT PRIMARY KEY, v) WITHOUT ROWID; INSERT INTO w_new SELECT k, v + 1000 FROM w; DROP TABLE w; ALTER TABLE w_new RENAME TO w", "RESERVED: a new table, and w rebuilt under its old name (other root page, other values)"},
+				{"W", "COMMIT", "committed (schema cookie changed)"},
+				{"W", "BEGIN IMMEDIATE", "RESERVED right after the schema change"},
+				{"W", "INSERT INTO w VALUES ('uncommitted', 1)", "RESERVED"},
+				{"W", "ROLLBACK", "rolled back"},
+				{"W", "DROP INDEX t_v; CREATE INDEX t_v ON t (v DESC)", "committed: the index rebuilt under its old name, other order"},
+			}},
 			c07Scenario{"exclusive-mode/" + m, pr + "; PRAGMA locking_mode=EXCLUSIVE", []c07Step{
 				{"W", "BEGIN EXCLUSIVE", "EXCLUSIVE"},
 				{"W", "INSERT INTO t VALUES (504, 'uncommitted', 'p')", "EXCLUSIVE"},
@@ -133,7 +142,7 @@ func c07Scenarios(thorough bool) []c07Scenario {
 }
 
 func runC07(r *ev.Run) {
-	r.Rule = "writer scripts of a real SQLite connection in another process (small commit, two transactions back to back with synchronous FULL and OFF, rollback, spilling bulk insert with cache_size=1, a schema change spilled with a multi-page sqlite_master and then rolled back, commit blocked by a third reader = PENDING, locking_mode=EXCLUSIVE), journal modes DELETE (+TRUNCATE, PERSIST thorough), parked after EVERY statement; the table scanned by the long-lived handles spans more pages than the handle's page cache holds (so its older cache generation is in use); in every parked state every read operation (all low level and high level calls, the driver) runs on a fresh handle and on a long-lived handle; in addition one long-lived handle per SUBSET of the steps reads (Select on both tables, IndexedSelect) only at the steps of its subset, so every read schedule of a long-lived handle is covered; and one handle OPENED in every parked state, read at every later step; the writer's lock level is read from /proc/locks; oracle: PENDING or EXCLUSIVE => error and zero rows; RESERVED/SHARED/UNLOCKED => success and exactly the last committed content (dumped by a separate SQLite reader). second family (mid-read): a Select / IndexedSelect parked in its row callback, on a fresh handle and on a handle opened before another process grew the file threefold; the writer (one page cache: it wants to spill) begins and updates every row at row j and tries COMMIT or ROLLBACK at row k, for every j <= k (and, for a third of them, with a select-like call made from the first row's callback on the same handle): no row of the unfinished transaction is delivered, the result equals the state committed when the read started, the writer never holds EXCLUSIVE and never commits while the read is in progress, and can finish after it returned. non-trivial = states in which the writer holds RESERVED or more"
+	r.Rule = "writer scripts of a real SQLite connection in another process (small commit, two transactions back to back with synchronous FULL and OFF, rollback, spilling bulk insert with cache_size=1, a schema change spilled with a multi-page sqlite_master and then rolled back, commit blocked by a third reader = PENDING, locking_mode=EXCLUSIVE), journal modes DELETE (+TRUNCATE, PERSIST thorough), parked after EVERY statement; the table scanned by the long-lived handles spans more pages than the handle's page cache holds (so its older cache generation is in use); in every parked state every read operation (all low level and high level calls, the driver) runs on a fresh handle and on a long-lived handle; in addition one long-lived handle per SUBSET of the steps reads (Select on both tables, IndexedSelect) only at the steps of its subset and starting with each of the three operations in turn, so every read schedule of a long-lived handle is covered; a script that commits schema changes (new table, a table and an index rebuilt under their old names with other content); and one handle OPENED in every parked state, read at every later step; the writer's lock level is read from /proc/locks; oracle: PENDING or EXCLUSIVE => error and zero rows; RESERVED/SHARED/UNLOCKED => success and exactly the last committed content (dumped by a separate SQLite reader). second family (mid-read): a Select / IndexedSelect parked in its row callback, on a fresh handle and on a handle opened before another process grew the file threefold; the writer (one page cache: it wants to spill) begins and updates every row at row j and tries COMMIT or ROLLBACK at row k, for every j <= k (and, for a third of them, with a select-like call made from the first row's callback on the same handle): no row of the unfinished transaction is delivered, the result equals the state committed when the read started, the writer never holds EXCLUSIVE and never commits while the read is in progress, and can finish after it returned. non-trivial = states in which the writer holds RESERVED or more"
 	defer c07MidRead(r)
 	dir := ev.TmpDir("c07")
 	defer os.RemoveAll(dir)
@@ -179,7 +188,7 @@ func runC07(r *ev.Run) {
 		// one long-lived handle per subset of the steps (every read schedule); each reads once now (warm cache)
 		subset := map[int]*Env{}
 		if len(sc.steps) <= 8 {
-			for mask := 1; mask < 1<<uint(len(sc.steps)); mask++ {
+			for mask := 3; mask < 3<<uint(len(sc.steps)); mask++ { // mask/3: the steps it reads at, mask%3: which operation it starts with
 				le, err := OpenEnv(path)
 				if err != nil {
 					r.Harness("open: %v", err)
@@ -218,7 +227,7 @@ func runC07(r *ev.Run) {
 			}
 			// after a commit the committed content changes: re-derive it when nobody holds more than SHARED
 			if level == "UNLOCKED" || level == "SHARED" {
-				if st.who == "W" && (strings.HasPrefix(st.cmd, "COMMIT") || strings.HasPrefix(st.cmd, "ROLLBACK") || strings.HasPrefix(st.cmd, "PRAGMA locking_mode=NORMAL")) && status == "ok" {
+				if st.who == "W" && status == "ok" { // a COMMIT, a ROLLBACK, or statements outside a transaction
 					committed = c07Committed(r, path, ops, R3)
 					if committed == nil {
 						return
@@ -259,19 +268,29 @@ func runC07(r *ev.Run) {
 				defer le.H.Close()
 			}
 			// handles that read only at SOME steps: handle s (a bit mask over the steps) reads now iff bit k is set
-			for mask, le := range subset {
+			for key, le := range subset {
+				mask, rot := key/3, key%3
 				if mask&(1<<uint(k)) == 0 {
 					continue
 				}
+				// the operation a handle starts with after a commit decides which of its caches is consulted first:
+				// every one of the three goes first on one handle of each read schedule
+				var order []int
 				for oi, op := range ops {
-					if op.Name != "Select(t)" && op.Name != "Select(w)" && op.Name != "IndexedSelect(t,t_v)" {
-						continue
+					if op.Name == "Select(t)" || op.Name == "Select(w)" || op.Name == "IndexedSelect(t,t_v)" {
+						order = append(order, oi)
 					}
+				}
+				if len(order) > 0 {
+					order = append(order[rot%len(order):], order[:rot%len(order)]...)
+				}
+				for _, oi := range order {
+					op := ops[oi]
 					var res OpResult
 					p := Safely(func() { res = op.Run(le, 0) })
 					r.Eval(1)
 					r.Trans(1)
-					a2 := map[string]interface{}{"op": op.Name, "handle": "long-lived, reads only at the steps of the mask", "read_mask": mask}
+					a2 := map[string]interface{}{"op": op.Name, "handle": "long-lived, reads only at the steps of the mask", "read_mask": mask, "starts_with_operation": rot}
 					for kk, v := range art {
 						a2[kk] = v
 					}
